@@ -1,4 +1,5 @@
 import Dashu.Proofs.Float.Closing
+import Dashu.Proofs.Float.Review
 /-
   C03 — Float arithmetic honours the documented rounding contract of its mode.
 
@@ -136,6 +137,14 @@ theorem add_sub_contract (B : Nat) (hB : 2 ≤ B) (m : Mode) (c : Coarse) (hc : 
     Contract B m p (lhs.toRat B + (rs : ℚ) * rhs.toRat B)
       ((ctxAddSub B m c dub p lhs rhs rs).1.toRat B) (ctxAddSub B m c dub p lhs rhs rs).2 :=
   addSub_fits_contract B hB m c hc dub hdub p hp lhs rhs rs hrs hl hr hwl hwr hld hrd
+
+/-- the operators `a + b`, `a - b` (all four ownership forms and the assign forms; `opAddSub`: a zero operand
+    returns the other one unrounded) return the value of `Context::add` / `sub` at `Context::max` precision
+    whenever the operands fit it — so `add_sub_contract` is also a theorem about the operators -/
+theorem operators_add_sub (B : Nat) (m : Mode) (c : Coarse) (dub : Int → Nat) (p : Nat) (lhs rhs : FRepr) (rs : Int)
+    (hrs : rs = 1 ∨ rs = -1) (hld : lhs.digits B ≤ p) (hrd : rhs.digits B ≤ p) :
+    opAddSub B m c dub p lhs rhs rs = (ctxAddSub B m c dub p lhs rhs rs).1 :=
+  opAddSub_eq_ctx B m c dub p lhs rhs rs hrs hld hrd
 
 /-- `Context::repr_round_sum(signif, exp, (low, lk), is_sub)` in general: the contract for the exact value
     `(signif·B^lk + low)·B^(exp − lk)` under the guard-digit hypothesis `hguard` — which the four
@@ -389,6 +398,21 @@ example : ctxAddSub 10 .zero coarseNone (digitsI 10) 3 ⟨12, 1⟩ ⟨7, 0⟩ 1 
 -- sqrt(2.1) at 2 digits, HalfAway: 1.4 (NoOp) — 1.5 before fix 92fc29e
 example : ctxSqrt 10 .halfAway coarseNone natSqrtRem 2 ⟨21, -1⟩ = .ok (⟨14, -1⟩, some .NoOp) := by decide +kernel
 
+-- every hypothesis of `add_sub_contract` on concrete operands of the splitting branch with cancellation:
+-- 1.01e3 − 1.99e1 at 3 digits (HalfEven) = 990 (SubOne)
+example : Normalized 10 ⟨101, 1⟩ ∧ Normalized 10 ⟨199, -1⟩ ∧ (⟨101, 1⟩ : FRepr).digits 10 ≤ 3 ∧
+    (⟨199, -1⟩ : FRepr).digits 10 ≤ 3 ∧ DubSound 10 (digitsI 10) ∧
+    ctxAddSub 10 .halfEven coarseNone (digitsI 10) 3 ⟨101, 1⟩ ⟨199, -1⟩ (-1) = (⟨99, 1⟩, some .SubOne) := by
+  refine ⟨by unfold Normalized; decide, by unfold Normalized; decide, by decide +kernel, by decide +kernel,
+    fun _ => le_refl _, by decide +kernel⟩
+-- `Representable`: 1.2 × 0.5 = 0.6 has one digit, so at 2 digits the product must be exact
+example : Representable 10 2 ((⟨12, -1⟩ : FRepr).toRat 10 * (⟨5, -1⟩ : FRepr).toRat 10) ∧
+    opMul 10 .up coarseNone 2 ⟨12, -1⟩ ⟨5, -1⟩ = (⟨6, -1⟩, none) := by
+  refine ⟨⟨6, -1, by decide, ?_⟩, by decide +kernel⟩
+  simp [FRepr.toRat, bpowQ]; norm_num
+-- hypotheses of `div_contract` / `sqrt_contract`: a non-zero divisor, a non-negative radicand
+example : (⟨13, 0⟩ : FRepr).signif ≠ 0 ∧ (0 : Int) ≤ (⟨21, -1⟩ : FRepr).signif ∧ SqrtRemOk natSqrtRem :=
+  ⟨by decide, by decide, natSqrtRem_ok⟩
 -- the p+1-st digit does occur: 2 / 13 at 2 digits (mode Zero) is 153e-3; 26 / 13 is exact
 example : reprDiv 10 .zero 2 ⟨2, 0⟩ ⟨13, 0⟩ = .ok (⟨153, -3⟩, some .NoOp) ∧
     reprDiv 10 .zero 2 ⟨26, 0⟩ ⟨13, 0⟩ = .ok (⟨2, 0⟩, none) := by decide +kernel
